@@ -142,7 +142,8 @@ func writeCoord(g BLSGroup, v E2) []byte {
 	if g == 1 {
 		return v.A.FillBytes(make([]byte, 48))
 	}
-	out := v.B.FillBytes(make([]byte, 96))
+	out := make([]byte, 96)
+	v.B.FillBytes(out[:48])
 	v.A.FillBytes(out[48:])
 	return out
 }
